@@ -33,24 +33,72 @@ RULE = ("case = (operator class, constructor configuration from the class alphab
         "non-trivial = an independent reference definition was compared AND TIMES and ADJOINT_TIMES were both "
         "densified with a non-empty matrix; cases are distinct by (class, configuration, dtype)")
 ASSUMPTIONS = [
-    "values of fields/matrices/diagonals are the deterministic generic fill selected by VERIF_SEED; structure is exhaustive over the stated alphabets",
-    "domains are tiny (<= 48 pixels); GPU (cupy) branches, cufinufft and MPI are not exercised",
-    "SHT reference: real orthonormal spherical harmonics (scipy.special.sph_harm_y) times NIFTy's 1/sqrt(4 pi) normalisation, which is read from the code (not documented)",
+    "values of fields/matrices/diagonals are the deterministic generic fill selected by VERIF_SEED (magnitudes in [0.5, 2]); structure is exhaustive over the stated alphabets",
+    "domains are tiny (<= 48 pixels); GPU (cupy) branches, cufinufft and MPI are not exercised; dtypes f8 and c16 only",
+    "premise exclusions: volume weights (Contraction power != 0, Integration, WeightApplier, DOFDistributor) only over structured spaces (UnstructuredDomain has no volume); "
+    "lines of sight lying inside a cell-boundary hyperplane (measure-zero ambiguity); SplitOperator(intersecting_slices=False) only with disjoint selections; "
+    "documented dtype rejections (Imaginizer on real input, Nufft/Gridder on real input) are skipped",
+    "SHT reference: real orthonormal spherical harmonics (scipy.special.sph_harm_y) at independently computed GL / HEALPix pixel centres, times NIFTy's 1/sqrt(4 pi) normalisation, which is read from the code (not documented)",
     "Hartley reference uses the default 'non_canonical_hartley' convention (Re F + Im F)",
-    "Nufft/Gridder are compared at 1e-8 (requested epsilon 2e-10), LOSResponse at 3e-6 (float32 weights, 1e-7 end-point shortening in the code); LOSResponse with sigmas, FuncConvolution on the sphere and InversionEnabler-inverse have no closed-form reference here (consistency checks only / CG tolerance)",
+    "tolerances: 1e-10 relative to the largest matrix entry; Nufft/Gridder 1e-8 (requested epsilon 2e-10); LOSResponse 3e-6 (float32 weights and 1e-7 end-point shortening in the code); "
+    "inverse checks at max(1e-9, 1e-13 * known condition number) and skipped above condition 1e8 (HarmonicSmoothing with large sigma); CG-based inverses (InversionEnabler, WienerFilterCurvature) at 1e-7",
+    "no closed-form reference (consistency checks only): LOSResponse with sigmas, FuncConvolutionOperator on the sphere",
     "adjointness is demanded on x in the case's input dtype and y in the dtype TIMES produces (a real-output operator such as Nufft is not asked to be adjoint on imaginary y)",
+    "the check never feeds a field on a wrong domain, so the _check_input domain test itself is not exercised",
 ]
 
 MODES = {"TIMES": 1, "ADJOINT": 2, "INVERSE": 4, "ADJOINT_INVERSE": 8}
 
 
 # ------------------------------------------------------------------ case space
+# thorough tier: every configuration of the shape-generic classes is enumerated a second time on a larger /
+# differently spaced geometry (spec substitution); classes whose configurations carry shape-specific index
+# lists are widened inside their own alphabets instead (vf/ref/c02_ops.py, T(tier, quick, thorough)).
+_SUBST_CLASSES = ("ContractionOperator", "WeightApplier", "FFTOperator", "HartleyOperator", "HarmonicTransformOperator",
+                  "HarmonicSmoothingOperator", "FFTShiftOperator", "GeometryRemover", "TransposeOperator", "OuterProduct",
+                  "DiagonalOperator", "ScalingOperator", "ConjugationOperator", "Realizer", "Imaginizer", "VdotOperator",
+                  "DomainTupleFieldInserter", "ValueInserter", "PrependKey", "PartialExtractor", "Multifield2Vector",
+                  "PartialConjugate", "FieldAdapter", "SHTOperator")
+_SUBST = [(["RG", [2], [0.5], False], ["RG", [4], [0.3], False]),
+          (["RG", [3], [0.5], False], ["RG", [5], [0.7], False]),
+          (["RG", [4], [0.25], False], ["RG", [6], [0.2], False]),
+          (["RG", [2, 3], [0.5, 2.0], False], ["RG", [3, 4], [0.3, 1.5], False]),
+          (["RG", [3, 2], [0.3, 0.7], False], ["RG", [4, 3], [0.6, 0.2], False]),
+          (["RG", [2], [0.7], True], ["RG", [4], [0.4], True]),
+          (["RG", [3], [0.7], True], ["RG", [5], [0.3], True]),
+          (["RG", [4], [0.5], True], ["RG", [6], [0.9], True]),
+          (["RG", [2, 3], [0.5, 1.0], True], ["RG", [3, 4], [0.7, 0.4], True]),
+          (["U", [2]], ["U", [3]]), (["U", [3]], ["U", [4]]),
+          (["GL", 2, 3], ["GL", 3, 4]), (["LM", 1, 1], ["LM", 2, 1]), (["LM", 2, 2], ["LM", 3, 3])]
+
+
+def _subst(obj):
+    if isinstance(obj, list):
+        for old, new in _SUBST:
+            if obj == old:
+                return new
+        return [_subst(o) for o in obj]
+    if isinstance(obj, dict):
+        return {k: _subst(v) for k, v in obj.items()}
+    return obj
+
+
 def cases(tier, seed):
+    import json
     from vf.ref import c02_ops as O
     out = []
     for ci, name in enumerate(O.ORDER):
         configs, _ = O.REGISTRY[name]
-        for k, cfg in enumerate(configs(tier)):
+        cfgs = list(configs(tier))
+        if tier != "quick" and name in _SUBST_CLASSES:
+            seen = set(json.dumps(c, sort_keys=True) for c in cfgs)
+            for c in list(cfgs):
+                c2 = _subst(c)
+                k = json.dumps(c2, sort_keys=True)
+                if k not in seen:
+                    seen.add(k)
+                    cfgs.append(c2)
+        for k, cfg in enumerate(cfgs):
             for dt in cfg.get("_dts", ("f8", "c16")):
                 out.append(dict(cls=name, cfg=cfg, dt=dt, seed=int(seed)))
     return out
